@@ -568,7 +568,8 @@ Proof.
 Qed.
 
 Lemma step_trim_good idx : 0 <= idx <= len ->
-  exists ln idx', step_trim cw t width wrap ell idx = LOk (ln, idx') /\ TLineOK idx ln idx'.
+  exists ln idx', step_trim cw t width wrap ell idx = LOk (ln, idx') /\ TLineOK idx ln idx' /\
+                  idx' = find_nl t idx + 1.
 Proof.
   intros Hidx. unfold step_trim.
   destruct (find_nl_spec t idx ltac:(lia)) as (Hnl1 & Hnl2 & Hnl3).
@@ -593,12 +594,12 @@ Proof.
     assert (Hpr : (pr = 0 \/ pr = 1) /\ sc = width - ew - pr) by (unfold pr; destruct (sc <? width - ew) eqn:E; lia).
     destruct Hpr as (Hpr & Hscpr).
     exists ((if width - ew - pr =? 0 then [] else [SText (width - ew - pr) idx pos]) ++ [SIns ew pos ell] ++ [SPad pr pos]), (nl + 1).
-    split; [reflexivity|].
+    split; [reflexivity|]. split; [|reflexivity].
     rewrite <- Hscpr. rewrite Hsc.
     apply TL_trim; try lia; try assumption.
     split; [lia|]. exists ch. split; [assumption | lia].
   - exists ((if W idx nl =? 0 then [] else [SText (W idx nl) idx nl]) ++ [] ++ [SPad 0 nl]), (nl + 1).
-    split; [reflexivity|]. cbn [app].
+    split; [reflexivity|]. split; [|reflexivity]. cbn [app].
     apply TL_plain; try lia; try assumption.
     intros Ew Hne. rewrite Ew in Econd. cbn in Econd. lia.
 Qed.
@@ -609,7 +610,7 @@ Proof.
   induction fuel as [|k IH]; intros segs idx HL Hf; pose proof (TLines_range _ _ HL) as Hr; cbn [trim_loop].
   - destruct (idx <=? len) eqn:E; [lia|]. assert (idx = len + 1) by lia. subst. eauto.
   - destruct (idx <=? len) eqn:E.
-    + destruct (step_trim_good idx ltac:(lia)) as (ln & idx' & -> & HO). cbn [lbind].
+    + destruct (step_trim_good idx ltac:(lia)) as (ln & idx' & -> & HO & _). cbn [lbind].
       pose proof (TLineOK_range _ _ _ HO).
       apply IH; [econstructor; eassumption | lia].
     + assert (idx = len + 1) by lia. subst. eauto.
